@@ -90,6 +90,15 @@ def run_case(line, seed):
     out = []
     key = (kind, chunk)
     try:
+        return _run_case(toks, kind, chunk, key, sizes, rng, exe, d, out)
+    except BaseException:
+        # wall-clock timeout or anything else that left the machine in an unknown state
+        drop_machine(key)
+        raise
+
+
+def _run_case(toks, kind, chunk, key, sizes, rng, exe, d, out):
+    try:
         m = get_machine(kind, chunk)
     except Exception as e:
         drop_machine(key)
